@@ -78,7 +78,7 @@ Proof.
 Qed.
 
 Definition prim_path (reg : registry) (o : cop) (ct : str) : path :=
-  if is_none_ret (resolve o) then PNone else strategy_path reg (resolve o) ct.
+  if is_none_ret (resolve o) then PNone else strategy_path reg (nd_of o) (resolve o) ct.
 
 (* the response is the processed numeric primary *)
 Lemma locate_primary_num : forall reg o r p n ct,
@@ -96,7 +96,7 @@ Qed.
 Lemma locate_secondary_num : forall reg o r m ct,
   distinct_codes (map cr_code o) = true -> In r o -> cr_code r = Num m -> lead2 m = true ->
   (forall p n, cprocessed o = Some (p, n) -> resp_eqb (to_resp p) (to_resp r) = false) ->
-  handle reg o m ct = secondary_path reg (resolve o) ct r /\ In r (cothers o).
+  handle reg o m ct = secondary_path reg (nd_of o) (resolve o) ct r /\ In r (cothers o).
 Proof.
   intros reg o r m ct Hd Hr Hc Hl Hnp.
   assert (Hfind : forall l, In r l -> (forall x, In x l -> In x o) -> find_status m l = Some r).
@@ -123,7 +123,7 @@ Lemma locate_wildcard : forall reg o r st ct,
   distinct_codes (map cr_code o) = true -> In r o -> is_wildcard_2xx (cr_code r) = true ->
   forallb (fun x => implb (is_wildcard_2xx (cr_code x)) (code_eqb (cr_code x) (cr_code r))) o = true ->
   declared_num o st = false -> in_range wildcard_lo wildcard_hi st = true ->
-  handle reg o st ct = (if is_strategy_resp o r then prim_path reg o ct else secondary_path reg (resolve o) ct r)
+  handle reg o st ct = (if is_strategy_resp o r then prim_path reg o ct else secondary_path reg (nd_of o) (resolve o) ct r)
   /\ In r (cothers o) /\ wildcard_resp o = Some r.
 Proof.
   intros reg o r st ct Hd Hr Hw Hu Hfree Hrange.
@@ -287,11 +287,13 @@ Lemma primary_delivers : forall reg o r eo imported,
      then single_content r || collapsed_content r || negb (mem_str (show (ctype_to_python e)) [s_str; s_bytes]) = true
      else single_content r || collapsed_content r = false) ->
   ideal true r eo <> WStreamItems ->
-  (strategy_registers reg (resolve o) = true -> imported = true) ->
+  (ideal true r eo = WStreamLines -> exists b, stream_path reg (nd_of o) (resolve o) = PStreamNdjson b) ->
+  (strategy_registers reg (nd_of o) (resolve o) = true -> imported = true) ->
   delivers imported (prim_path reg o (the_ct eo)) (ideal true r eo) = true
   /\ match ideal true r eo with WJsonTyped t | WJsonRaw t => covers (st_ret (resolve o)) t = true | _ => True end.
 Proof.
-  intros reg o r eo imported Hprim Hdm Hok Heo Gbi Gc Gf Himp.
+  intros reg o r eo imported Hprim Hdm Hok Heo Gbi Gc Gf Gl Himp.
+  assert (Hnd : nd_of o = is_ndjson_resp r) by (unfold nd_of; rewrite Hprim; reflexivity).
   unfold prim_path. unfold resolve in *. rewrite Hprim in *.
   destruct (cr_content r) as [|c0 rest] eqn:Hc.
   { (* no content *)
@@ -311,8 +313,13 @@ Proof.
     + cbn [orb]. split; [vm_compute; reflexivity | exact I].
     + rewrite (no_binary_no_binfmt _ Hok Hb) in *. cbn [orb] in *.
       destruct (existsb (fun x => contains_s w_event_stream (c_media x)) (c0 :: rest)) eqn:He.
-      * split; [vm_compute; reflexivity | exact I].
-      * exfalso. apply Gf. reflexivity.
+      * assert (Hnd0 : nd_of o = false) by (rewrite Hnd; unfold is_ndjson_resp; rewrite Hc, He; apply andb_false_r).
+        rewrite Hnd0. split; [vm_compute; reflexivity | exact I].
+      * destruct (is_ndjson_resp r) eqn:Hn; [|exfalso; apply Gf; reflexivity].
+        destruct (Gl eq_refl) as [b Hb']. unfold strategy_path, is_none_ret in *. cbn [st_streaming] in *.
+        split; [|exact I].
+        destruct (strategy_schema (c0 :: rest)) as [e0|]; cbn [st_ret st_streaming] in *; rewrite Hb';
+          (replace (str_eqb (show (TAsyncIter _)) s_None) with false by reflexivity); reflexivity.
   - (* not a stream *)
     specialize (Gc e eq_refl eq_refl). unfold single_content, collapsed_content in Gc. rewrite Hc in Gc.
     assert (Hnb := not_stream_no_binfmt r e Hs ltac:(rewrite Hc; exact Heo)).
@@ -398,7 +405,7 @@ Lemma secondary_delivers : forall reg o r e h imported ct,
   handler_schema (cr_content r) = Some h -> c_media h = c_media e ->
   heuristic_ok reg (c_type e) && implb (needs_structure (c_type e)) (deser_direct reg (c_type e)) = true ->
   (secondary_registers reg r = true -> imported = true) ->
-  delivers imported (secondary_path reg (resolve o) ct r) (ideal false r (Some e)) = true
+  delivers imported (secondary_path reg (nd_of o) (resolve o) ct r) (ideal false r (Some e)) = true
   /\ ideal false r (Some e) = want_json (c_type e).
 Proof.
   intros reg o r e h imported ct Hns Hdm Hin Hs Hj Hh Hm Hb Himp.
@@ -408,6 +415,17 @@ Proof.
   { unfold ideal. rewrite Hs. cbn [andb]. rewrite Hnbin, Hntext. reflexivity. }
   split; [|exact Hw]. rewrite Hw. unfold secondary_path. rewrite Hns, Hh.
   apply delivers_structured_json; [exact Hb|]. intro Hsu. apply Himp. unfold secondary_registers. rewrite Hh. exact Hsu.
+Qed.
+
+Lemma stream_path_facts : forall reg nd s,
+  (forall c, stream_path reg nd s <> PStructure c)
+  /\ forall t, delivers true (stream_path reg nd s) (WJsonTyped t) = false /\ delivers true (stream_path reg nd s) (WJsonRaw t) = false.
+Proof.
+  intros reg nd s. unfold stream_path.
+  destruct (contains_s _ _); [split; [discriminate | split; reflexivity]|].
+  destruct nd; [|split; [discriminate | split; reflexivity]].
+  destruct (st_ret s); try (split; [discriminate | split; reflexivity]).
+  destruct (should_use_cattrs reg _); [destruct (deser_code reg _ _)|]; split; try discriminate; split; reflexivity.
 Qed.
 
 Lemma delivers_no_structure : forall imported p w,
@@ -468,22 +486,25 @@ Proof.
               destruct (json_like (c_media e)); cbn [negb andb] in Gc;
               [ rewrite orb_false_r in Gc; exact Gc | apply negb_true_iff in Gc; rewrite orb_false_r in Gc; exact Gc ]).
     all: try (intro E; unfold guard_F05f, the_want in Gf; rewrite Hpc, <- Er, E in Gf; discriminate).
+    all: try (intro E; unfold guard_F05f, the_want in Gf; rewrite Hpc, <- Er, E, <- Eo in Gf;
+              destruct (stream_path (d_reg d) (nd_of o) (resolve o)); try discriminate; eexists; reflexivity).
     all: try (intro Hreg; unfold the_imported; apply (module_has _ _ o Ho); unfold registers_cattrs; rewrite Hem, Hreg; reflexivity). }
   (* --- finishing a further 2xx response (secondary) --- *)
   assert (FinS : is_primary_case d = false ->
-                 the_path d = secondary_path (d_reg d) (resolve o) (the_ctype d) r ->
+                 the_path d = secondary_path (d_reg d) (nd_of o) (resolve o) (the_ctype d) r ->
                  In r (cothers o) -> is_secondary_2xx o r = true -> C05_holds d = true).
   { intros Hpc Hpath Hco Hsec.
     destruct (st_streaming (resolve o)) eqn:Hst.
     - (* further 2xx of a streaming operation *)
       assert (Hnostruct : forall c, the_path d <> PStructure c).
       { intros c E. rewrite Hpath in E. unfold secondary_path in E. rewrite Hst in E.
-        destruct (cr_content r); [discriminate | destruct (contains_s _ _); discriminate]. }
+        destruct (cr_content r); [discriminate | exact (proj1 (stream_path_facts _ _ _) c E)]. }
       destruct (the_entry d) as [e|] eqn:He.
       + unfold guard_F05c in Gc. cbv zeta in Gc. rewrite He, Hpc, <- Eo, Hst in Gc. cbn [negb andb] in Gc.
         apply holds_from_parts; [apply delivers_no_structure; assumption|].
         destruct (the_want d) eqn:Ew; auto; exfalso; rewrite Hpath in Gc; unfold secondary_path in Gc; rewrite Hst in Gc;
-          destruct (cr_content r); try discriminate; destruct (contains_s _ _); discriminate.
+          destruct (cr_content r); try discriminate;
+          pose proof (proj2 (stream_path_facts (d_reg d) (nd_of o) (resolve o)) t) as [F1 F2]; congruence.
       + assert (Hw : the_want d = WNone) by (unfold the_want; rewrite He; reflexivity).
         apply holds_from_parts; rewrite Hw; [|exact I].
         rewrite Hpath. unfold secondary_path. rewrite Hst, Heo. reflexivity.
